@@ -65,7 +65,115 @@ def discover(crate):
     return ren
 
 
+# Private (non-pub) functions the rule tables name.  Renaming one is behaviour-preserving, so when the documented name is
+# absent the function is re-identified by its role: the one non-public inherent function of the same type (or free function
+# of the same file) with exactly this signature (return type first) that no other table entry names.  Ambiguity fails closed
+# (the rules then report `anchor missing`).
+FN_ROLES = {
+    "AdtDeserializer::read_or_get_constructor_idx": ("Result<u32, Error>", "&mut AdtDeserializer"),
+    "AdtDeserializer::record_field_index": ("FieldPosition", "&mut AdtDeserializer", "u8"),
+    "AdtSerializer<Output>::record_field_index": ("()", "&mut AdtSerializer<Output>", "&str", "u8"),
+    "AdtSerializer<Output>::write_evolution_header": ("Result<(), Error>", "&mut AdtSerializer<Output>", "&[Evolution]",
+                                                      "&HashSet<String, RandomState, Global>"),
+    "DeserializationContext::pop_region": ("InputRegion", "&mut DeserializationContext"),
+    "DeserializationContext::pos": ("usize", "&DeserializationContext"),
+    "DeserializationContext::push_region": ("()", "&mut DeserializationContext", "InputRegion"),
+    "InputRegion::empty": ("InputRegion",),
+    "InputRegion::new": ("InputRegion", "usize", "usize"),
+    "RefId::next": ("()", "&mut RefId"),
+    "StringId::next": ("()", "&mut StringId"),
+    "ResolvedInputRegion::unresolve": ("InputRegion", "ResolvedInputRegion"),
+    "checked_naive_local": ("Result<NaiveDateTime, Error>", "&DateTime<Z>"),
+    "deserialize_iterator": ("DeserializerIterator<T>", "&mut DeserializationContext"),
+}
+
+
+def _sig(b):
+    return tuple(short(l["ty"].get("s", "")) for l in b.locals[:b.arg_count + 1])
+
+
+def discover_fns(crate):
+    """{actual def string: canonical last segment} for renamed private anchor functions"""
+    from . import walk
+    out = {}
+    taken = set()
+    for key, sig in FN_ROLES.items():
+        if crate.by_key.get(key):
+            continue
+        owner = key.rsplit("::", 1)[0] if "::" in key else None
+        cands = []
+        for b in crate.bodies.values():
+            if b.kind not in ("Fn", "AssocFn") or b.vis is None or b.vis == "Public" or b.in_trait:
+                continue
+            if b.impl and b.impl.get("trait"):
+                continue
+            if b.key in walk.ANCHORS or b.key in FN_ROLES:
+                continue
+            bo = b.key.rsplit("::", 1)[0] if "::" in b.key else None
+            if bo != owner or _sig(b) != sig:
+                continue
+            cands.append(b)
+        if len(cands) == 1 and cands[0].defn not in taken:
+            taken.add(cands[0].defn)
+            out[cands[0].defn] = key.rsplit("::", 1)[-1]
+    return out
+
+
+def _rename_defs(obj, m):
+    """rewrite every string that is (or is a closure of) a renamed def path, in place"""
+    if isinstance(obj, dict):
+        for k, v in obj.items():
+            if isinstance(v, str):
+                nv = _ren_str(v, m)
+                if nv is not v:
+                    obj[k] = nv
+            elif isinstance(v, (dict, list)):
+                _rename_defs(v, m)
+    elif isinstance(obj, list):
+        for i, v in enumerate(obj):
+            if isinstance(v, str):
+                nv = _ren_str(v, m)
+                if nv is not v:
+                    obj[i] = nv
+            elif isinstance(v, (dict, list)):
+                _rename_defs(v, m)
+
+
+def _ren_str(v, m):
+    for old, new in m.items():
+        if v == old or v.startswith(old + "::{"):
+            return new + v[len(old):]
+    return v
+
+
+def canonicalise_fns(crate):
+    fr = discover_fns(crate)
+    crate.fn_renames = fr
+    if not fr:
+        return
+    from .facts import body_key
+    m = {old: old[:old.rindex("::") + 2] + name for old, name in fr.items()}
+    for b in crate.bodies.values():
+        _rename_defs(b.raw, m)
+    _rename_defs(crate.items, m)
+    bodies = {}
+    for b in crate.bodies.values():
+        b.defn = b.raw["def"]
+        b.root = b.raw["root"]
+        b.key = body_key(b.raw)
+        bodies[b.defn] = b
+    crate.bodies = bodies
+    for b in bodies.values():
+        root = b.raw.get("root")
+        if root and root != b.defn and root in bodies and b.defn.startswith(root):
+            b.key = bodies[root].key + b.defn[len(root):]
+    crate.by_key = {}
+    for b in bodies.values():
+        crate.by_key.setdefault(b.key, []).append(b)
+
+
 def canonicalise(crate):
+    canonicalise_fns(crate)
     ren = discover(crate)
     crate.field_renames = ren
     if not ren:
